@@ -127,6 +127,63 @@ def run(chk, fb, tier):
     chk.assume("E3: totally ordered coordinates without NaN; a lower bound of +inf / an upper bound of -inf is excluded from the emptiness oracle")
 
 
+_HSUM = {}
+
+
+def _helper_summary(fb, t):
+    """pairs (object text, argument text), in the callee's own names, such that every path of t to its normal exit has
+    passed 'object null or object->isCorrect(argument)': t returns only when the constraint accepts the value"""
+    if t.key in _HSUM:
+        return _HSUM[t.key]
+    _HSUM[t.key] = out = []
+    if t.cfg is None or t.body is None:
+        return out
+    cands = set()
+    for n in t.calls():
+        if n["callee"]["name"] == "isCorrect" and "obj" in n and t.args(n):
+            cands.add((render(t.obj(n)), render(t.args(n)[0])))
+    w = e1.writes_in(t, t.body)
+    for o, a in sorted(cands):
+        ok, _ = _must_validate(t.cfg, lambda facts: _iscorrect_fact(facts, {o}, a), set())
+        if ok and not any(x[0] == "v" for x in w):
+            out.append((o, a))
+    return out
+
+
+def _validating_sites(fb, f, obj_texts, arg_text):
+    """calls in f of a helper that returns only when one of obj_texts is null or accepts arg_text (None: any value)"""
+    sites = []
+    for n in f.calls():
+        for t in fb.targets(n, static_type_only=True):
+            if t.key == f.key or t.name == "isCorrect":
+                continue
+            summ = _helper_summary(fb, t)
+            if not summ:
+                continue
+            args = f.args(n)
+            m = {p["name"]: render(args[i]) for i, p in enumerate(t.params) if i < len(args) and p.get("name")}
+            for o, a in summ:
+                o2, a2 = m.get(o, o), m.get(a, a)
+                # a field name of the callee means the same object only when the helper runs on this
+                if (o not in m or a not in m) and "obj" in n and render(f.obj(n)) != "this":
+                    continue
+                if o2 in obj_texts and (arg_text is None or a2 == arg_text):
+                    sites.append(n)
+    return sites
+
+
+def _through(cfg, f, sites, target=None):
+    """blocks whose execution establishes the guard; a site in the target's own block counts when it comes first"""
+    blocks, same = set(), False
+    for n in sites:
+        b = cfg.stmt_block(n)
+        if target is not None and b == cfg.stmt_block(target):
+            same = same or e1.earlier_in_block(cfg, n, target)
+        else:
+            blocks.add(b)
+    return blocks, same
+
+
 def _init_of(f, field):
     for i in f.rec.get("inits", []):
         if i.get("field") == field:
@@ -167,6 +224,8 @@ def _classify_ctor(chk, fb, f, d):
             if t.qname == "bpp::Parameter::setValue" or t.name in ("setValue",):
                 if _always_validates(fb, t):
                     validating_calls.add(cfg.stmt_block(n))
+    for n in _validating_sites(fb, f, obj_texts, None):
+        validating_calls.add(cfg.stmt_block(n))
     # every path entry -> normal exit must cross an establishing edge or a validating call
     ok, path = _must_validate(cfg, establishes, validating_calls)
     if ok:
@@ -190,6 +249,9 @@ def _stored_is_validated(chk, fb, f, obj_texts):
     for n in f.calls():
         if n["callee"]["name"] == "isCorrect" and "obj" in n and render(f.obj(n)) in obj_texts:
             tested.add(render(f.args(n)[0]))
+    for x in {render(a) for n in f.calls() for a in f.args(n)}:
+        if _validating_sites(fb, f, obj_texts, x):
+            tested.add(x)
     vi = _init_of(f, VALUE)
     if vi and render(vi["expr"]) in tested:
         chk.proved("D2", f.key, "validated-is-stored", f.loc(), "value_ initialised from the tested value")
@@ -273,7 +335,8 @@ def _classify_value_store(chk, fb, f, n, kind):
         return
     x = render(kids(n)[1])
     blk = cfg.stmt_block(n)
-    ok, path = e1.guarded_by(cfg, blk, lambda facts: _iscorrect_fact(facts, {"constraint_"}, x))
+    thr, same = _through(cfg, f, _validating_sites(fb, f, {"constraint_"}, x), n)
+    ok, path = (True, None) if same else e1.guarded_by(cfg, blk, lambda facts: _iscorrect_fact(facts, {"constraint_"}, x), through=thr)
     # X must not be rewritten between guard and store: X must be a parameter / local never assigned
     w = e1.writes_in(f, f.body)
     rhs_reads = e1.reads_in(kids(n)[1])
@@ -337,7 +400,8 @@ def _classify_constraint_store(chk, fb, f, n, kind):
                 if o == c and ar == "value_":
                     return True
         return False
-    ok, path = e1.guarded_by(cfg, blk, est)
+    thr, same = _through(cfg, f, _validating_sites(fb, f, {c}, "value_"), n)
+    ok, path = (True, None) if same else e1.guarded_by(cfg, blk, est, through=thr)
     if ok:
         chk.proved("D1", f.key, "guarded-install", f.loc(n), "constraint_ = %s dominated by '%s null or %s->isCorrect(value_)'" % (c, c, c))
     else:
@@ -352,15 +416,48 @@ def _d4c(chk, fb):
     if not handlers:
         return
     h = handlers[0]
-    # first store attempt inside the first handler
-    first = None
-    for n in walk(h):
-        if is_call(n) and n["callee"]["qname"] == "bpp::Parameter::setValue":
-            first = n
-            break
-    if first is None:
-        chk.refuted("D4c", f.key, "fallback-store", f.loc(h), "the rejection handler never stores a value")
+    cfg = f.cfg
+    # the first store attempt after the rejection of the requested value: from the dispatch of the try statement that holds
+    # Parameter::setValue(<requested>), the Parameter::setValue calls reached before any other (nested handler or a later
+    # statement after a handler that falls through)
+    def is_store(n):
+        return is_call(n) and n["callee"]["qname"] == "bpp::Parameter::setValue"
+    stores = sorted([n for n in walk(f.body) if is_store(n)], key=lambda n: n["id"])
+    by_block = {}
+    for n in stores:
+        by_block.setdefault(cfg.stmt_block(n), []).append(n)
+    for b in by_block:
+        order = {e: i for i, e in enumerate(cfg.blocks[b]["el"])}
+        by_block[b].sort(key=lambda n: order.get(n["id"], 1 << 30))
+    attempt = [n for n in stores if render(strip(f.args(n)[0])) == req]
+    disp = None
+    for b in cfg.blocks.values():
+        if b.get("termk") == "CXXTryStmt":
+            tr = f.nodes.get(b["term"])
+            if tr and kids(tr) and any(x in attempt for x in walk(kids(tr)[0])):
+                disp = b["id"]
+    if disp is None:
+        chk.unknown("D4c", f.key, "fallback-store", f.loc(h), "no try statement around Parameter::setValue(%s): not the form this rule reads" % req)
         return
+    firsts, seen, st = [], set(), [disp]
+    while st:
+        x = st.pop()
+        if x in seen:
+            continue
+        seen.add(x)
+        if x != disp and x in by_block:
+            firsts.append(by_block[x][0])
+            continue
+        st.extend(cfg.succ[x])
+    if not firsts:
+        chk.refuted("D4c", f.key, "fallback-store", f.loc(h), "after the rejection no path stores a value")
+        return
+    if len(firsts) > 1:
+        texts = {render(strip(f.args(n)[0])) for n in firsts}
+        if len(texts) > 1:
+            chk.unknown("D4c", f.key, "fallback-store", f.loc(firsts[0]), "several first store attempts after the rejection: %s" % sorted(texts))
+            return
+    first = firsts[0]
     arg = strip(f.args(first)[0])
     src = arg
     if arg["k"] == "DeclRefExpr" and arg["decl"]["kind"] == "local":
